@@ -36,3 +36,9 @@ claim("C17",
       "Decides, on every path of every function of the filter-list packages, that a file is opened only from internal data locations or under a passed pathMatchesAny test on the very cleaned value that is opened; that add and set-url reach storage/download only after validation, which itself succeeds only through the cleaned-path pattern match or the HTTP(S) URL check; that the matcher accepts only a successful glob match on a path equal to its cleaned absolute form; that no file transport exists; and that the pattern list comes only from configuration. "
       "This is the structural part of 'no spelling of a location reads a file outside the patterns, at add, set-url and refresh'; filepath.Match/Clean semantics and symlinks are trusted/not decided.",
       "DESIGN.md §5 C17")
+
+claim("C15",
+      "CFG path guards, reaching-store resolution of named results, who-may-write enumeration of list metadata (static analysis)",
+      "Decides that the downloaded file can replace a list only on the success edge, that the success flag is false or implies err == nil for the very error being returned and no transfer/parse error is overwritten with nil before that decision, that the parser writes only into the pending file, that an unchanged checksum never triggers a rewrite, that rule count / checksum are written only after a successful replace, from parsing the stored file, as a rollback, or when copying back a list that really was updated with the same ID, and that only a 200 response without transport error is parsed. "
+      "These are the structural conditions of 'a failed refresh changes nothing'; the parser's normal form being a fixed point, HTML/binary detection and the effect of a fault at each byte offset are value-level and not decided.",
+      "DESIGN.md §5 C15")
